@@ -72,7 +72,7 @@ impl Rng {
 
     /// inclusive range
     pub fn range(&mut self, lo: usize, hi: usize) -> usize {
-        lo + self.usize(hi - lo + 1)
+        lo + self.usize(hi.saturating_sub(lo) + 1)
     }
 
     /// true with probability num/den
